@@ -276,6 +276,7 @@ private:
 	{
 		static_assert(PrototypeInfo::index >= 0, "Can't find invoker for the given argument types.");
 
+		EVENTPP_VERIF_POINT("hl.slot");
 		if(! callbackListList[PrototypeInfo::index]) {
 			std::lock_guard<Mutex> lockGuard(callbackListListMutex);
 
@@ -284,6 +285,7 @@ private:
 			}
 		}
 
+		EVENTPP_VERIF_POINT("hl.slot");
 		return std::static_pointer_cast<HomoCallbackListType<typename PrototypeInfo::Prototype> >(callbackListList[PrototypeInfo::index]);
 	}
 
